@@ -385,11 +385,7 @@ def spans_ok(iso, sp):
     for (_n, lo, hi) in sp:
         ok = ok & (lo >= 16) & (hi <= size) & (lo <= hi)
         reach = reach | (hi == size)
-    for i in range(len(sp)):
-        a = sp[i]
-        for j in range(i + 1, len(sp)):
-            b = sp[j]
-            ok = ok & ((a[2] <= b[1]) | (b[2] <= a[1]))
+    ok = ok & h.disjoint([(lo, hi) for (_n, lo, hi) in sp])
     ok = ok & reach
     for v in iso.pvds + iso.svds:
         ok = ok & (v.space_size == size)
